@@ -99,6 +99,12 @@ impl OutstationTask {
 
     /// run the outstation task asynchronously until a `SessionError` occurs
     pub(crate) async fn run(&mut self, io: &mut PhysLayer) -> RunError {
+        // the previous run may have been dropped before it could clean up after itself
+        // (a TCP session pre-empted by a new connection): always start from a clean state
+        self.reader.reset();
+        self.writer.reset();
+        self.session.reset(&mut self.database);
+
         let res = self
             .session
             .run(io, &mut self.reader, &mut self.writer, &mut self.database)
